@@ -398,3 +398,68 @@ Definition run (inp : input) (order : list nat) : list node_view * list (bool * 
 Definition immediate (len : N) (r : reply) : list (N * N) * bool :=
   if len =? 0 then ([], false)
   else ([(0, len)], match r with RAccept => true | RError _ => false end).
+
+(* ------------------------------------------------------------------------------------------- *)
+(* A caller's context that carries a deadline.
+   Submit<Kind> itself never looks at ctx: the timeout goroutine sleeps s.timeout whatever the
+   context says and cond.Wait knows no context, so the call returns when a node's goroutine has
+   stored the flag or at the configured timeout, never because of the caller's deadline.  ctx only
+   reaches, unchanged, sem.Acquire(ctx, 1) (x/sync v0.9: fails once ctx is done, also when a token
+   is free or was handed over at that moment), serviceInfo -> NodeVersion(ctx), the node's
+   Submit<Kind>(ctx, ...) and the classifier (attestations: serviceInfo(ctx) again).
+   A node that honours its request context (the HTTP client does) refuses a request made with a
+   finished context and ends a request in flight with the context's error when the deadline
+   passes; no classifier tolerates "context deadline exceeded" (and the attestation classifier's
+   version request is then refused too), so that node's goroutine stores nothing.  Hence, with
+   deadline D: whatever the model says happens strictly before D happens as it says (tokens are
+   released early only at D); a goroutine that would store exactly at D may or may not (the two
+   timers are unordered); one that would store later does not.  A node that ignores the context
+   (cl_deaf: a submitter need not honour it) is stopped only at sem.Acquire: it is handed the
+   payload and stores as modelled iff it got its token before D. *)
+Record caller := { cl_deadline : N;      (* ms after the call, > 0 *)
+                   cl_deaf : bool }.     (* the nodes ignore the request context *)
+
+Inductive tri := TNo | TMaybe | TYes.
+
+(* does something the model places at instant t (None = never) happen under the caller's deadline? *)
+Definition upto (cl : option caller) (t : option N) : tri :=
+  match t, cl with
+  | None, _ => TNo
+  | Some _, None => TYes
+  | Some t, Some c => if t <? cl_deadline c then TYes else if t =? cl_deadline c then TMaybe else TNo
+  end.
+
+Definition deaf (cl : option caller) : bool := match cl with Some c => cl_deaf c | None => false end.
+
+(* is the node handed the payload (at v_at, the calls v_calls)? *)
+Definition handed_over (cl : option caller) (v : node_view) : tri :=
+  match v_at v with
+  | None => TNo
+  | Some _ => upto cl (if deaf cl then v_start v else v_at v)
+  end.
+
+(* does the node's goroutine reach its store (at v_done, if the verdict is VOk)? *)
+Definition stores (cl : option caller) (v : node_view) : tri :=
+  match v_done v with
+  | None => TNo
+  | Some _ => upto cl (if deaf cl then v_start v else v_done v)
+  end.
+
+Definition restrict (cl : option caller) (v : node_view) : node_view :=
+  match stores cl v with
+  | TYes => v
+  | TMaybe => {| v_start := v_start v; v_at := v_at v; v_calls := v_calls v; v_done := v_done v;
+                 v_verdict := match v_verdict v with VOk => VAny | x => x end |}
+  | TNo => {| v_start := v_start v; v_at := v_at v; v_calls := v_calls v; v_done := None;
+              v_verdict := v_verdict v |}
+  end.
+
+Definition outcomes_dl (cl : option caller) (inp : input) (order : list nat) : list (bool * N) :=
+  flat_map (outcomes_of (i_timeout inp)) (worlds (map (restrict cl) (views inp order))).
+
+(* Submit<Kind>(ctx, ...) with a caller's deadline: the views are those of `run` (to be read through
+   handed_over), the outcomes those the restricted stores allow *)
+Definition run_dl (cl : option caller) (inp : input) (order : list nat) : list node_view * list (bool * N) :=
+  if guard_ok (i_kind inp) (i_len inp)
+  then (views inp order, outcomes_dl cl inp order)
+  else (map (fun _ => idle_view) (i_nodes inp), [(false, 0)]).
